@@ -27,7 +27,7 @@ Fixpoint lt_items (w : bytes) (items : list bytes) : list ltok :=
 Definition lt_arg (w : bytes) (a : argument) : list ltok :=
   match a with
   | (TyStringList, VList items) => (w, TLeftBracket, [91%N]) :: lt_items [] items ++ [([], TRightBracket, [93%N])]
-  | (TyString, VStr s) => [(w, TString, s)]
+  | (TyString, VStr s) => [(w, str_kind s, s)]
   | (TyNumber, VStr s) => [(w, TNumber, s)]
   | (TyTag, VStr s) => [(w, TTag, s)]
   | _ => []
@@ -201,10 +201,14 @@ Proof.
   intros [[] [s0|items|n0|ns0]] H; cbn in H; try contradiction; cbn [lt_arg]; eauto.
 Qed.
 
+Lemma exact_str_kind : forall s, exact_string s -> str_kind s = TString.
+Proof. intros s H. destruct (exact_string_shape s H) as (body & -> & _). reflexivity. Qed.
+
 Lemma lchain_arg : forall a w X,
   all_space w -> arg_pr a -> tail_delim X -> lchain (lt_arg w a) X.
 Proof.
   intros [[] [s0|items|n0|ns0]] w X Hw H HX; cbn in H; try contradiction; cbn [lt_arg lchain lrender app];
+    try rewrite (exact_str_kind s0 H);
     try (split; [exact Hw|]; split; [exact H|]; split; [first [exact HX|exact I]|exact I]).
   (* list *)
   destruct H as (Hne & Hall).
